@@ -3,6 +3,7 @@ import BSModel.Proofs.HeapExtract
 import BSModel.Proofs.HeapLink
 import BSModel.Proofs.HeapIter
 import BSModel.Proofs.HeapDecompose
+import BSModel.Proofs.ParseLinkInv
 /-! # C01 — one consistent tree: every navigation view agrees after any edit history
 
 `Good h` says: there is a nested-set witness under which the children lists tile the parents' intervals and
@@ -209,6 +210,20 @@ example : (run (Heap.init [.soup, .tag, .tag, .str, .str])
     [.append 0 (.node 1), .append 1 (.node 2), .append 2 (.node 3), .append 0 (.node 4),
      .decompose 1, .append 0 (.node 3)]).isOk = true := by decide
 example : ((decompose (Heap.init [.soup, .tag]) 0).toOption.map (fun h => (h.ne 0, h.kids 0))) = some (none, []) := by
+  decide
+
+/-- **parse any document, then edit it in any way: still one consistent tree.** The heap the parser leaves
+    behind (Model/ParseLink.lean: the pointer writes of `PageElement.setup`, `object_was_parsed`,
+    `_linkage_fixer`, for any list of parser actions) is a consistent forest, and so is the result of every
+    finite history of editing calls applied to it. -/
+theorem parsed_then_edited_consistent :
+    ∀ (acts : List BS.ParseLink.Act) (ops : List Op) (h' : Heap),
+      run (BS.ParseLink.prun BS.ParseLink.PSt.init acts).heap ops = .ok h' → (∀ op ∈ ops, op.kindsOK) → Good2 h' :=
+  fun acts ops h' hr hk => history_consistent ops _ h' (BS.ParseLink.parse_good2 acts) hk hr
+
+/-! non-vacuity: a parsed document (`<a>x<b>y</b></a>z`) edited by a history that moves, wraps and destroys -/
+example : (run (BS.ParseLink.prun BS.ParseLink.PSt.init [.newTag, .newStr, .newTag, .newStr, .pop, .pop, .newStr]).heap
+    [.append 0 (.node 3), .insert 1 0 [.plain [7]], .extract 5, .decompose 1, .append 3 (.node 5)]).isOk = true := by
   decide
 
 end BS.Props.C01
